@@ -22,6 +22,8 @@ def main(tier, seed):
     if tier == "quick":
         design_mc.run(rep, "C09", seed, n=3, nf=3, ng=2, naops=True)
         design_trace.run(rep, "C09", 1500, seed, {"nmax": 14, "na_rate": 0.12, "na_cols": NA_COLS, "policies": ["drop", "drop", "error", "pass"], "salt": 9})
+        design_trace.run(rep, "C09", 400, seed, {"nmax": 12, "na_rate": 0.05, "na_cols": ("x", "f"), "policies": ["drop", "error"], "salt": 10,
+                                              "callee_cols": ("C", "I", "S", "T", "np", "fk", "scale", "offset")})
         bad_policy(rep)
     else:
         design_mc.run(rep, "C09", seed, n=4, nf=3, ng=2, naops=True)
